@@ -10,6 +10,7 @@ import (
 
 	"pgregory.net/rapid"
 	"verif/harness/graph"
+	altzoo "verif/harness/alt/zoo"
 	"verif/harness/zoo"
 )
 
@@ -97,6 +98,8 @@ func init() {
 		{"IAll", ifaceOf((*zoo.IAll)(nil))}, {"IC", ifaceOf((*zoo.IC)(nil))}, {"IComp", ifaceOf((*zoo.IComp)(nil))},
 		{"any", ifaceOf((*any)(nil))},
 		{"IZst", ifaceOf((*zoo.IZst)(nil))},
+		{"alt*PA", reflect.TypeOf(&altzoo.PA{})},
+		{"altIA", ifaceOf((*altzoo.IA)(nil))},
 	}
 	Types["string"] = reflect.TypeOf("")
 	Types["int"] = reflect.TypeOf(0)
@@ -240,4 +243,12 @@ func RegisteredName(p ProvSpec) string {
 		return p.Alias
 	}
 	return "verif/harness/zoo/" + zoo.ProviderKinds[p.Kind].Name
+}
+
+func init() {
+	// alt-package providers (same type names as the main zoo's PA / PB)
+	zoo.ProviderKinds = append(zoo.ProviderKinds,
+		zoo.ProviderKind{Name: "altPA", New: altzoo.NewPA},
+		zoo.ProviderKind{Name: "altPB", HasQual: true, New: altzoo.NewPB},
+	)
 }
